@@ -7,8 +7,10 @@
    lock-protected region or one statement touching self._tasks / task['proc'] /
    the process table / the cancel list / the queues, or one advance()/publish().
    `run (init sc) sched` executes ANY schedule (list of thread choices) on ANY
-   scenario (batches of task descriptions with a launch-fault point and a
-   run-time limit each, and cancel messages).  `emissions tr` is the sequence
+   scenario (batches of task descriptions with a launch-fault point, a
+   run-time limit and a `d_stub` flag each, and cancel messages).  A process
+   with d_stub outlives the kill: the thread that runs cancel_task then has no
+   step (it sits in proc.wait()) until the process exits by itself (step X).  `emissions tr` is the sequence
    of advance()/publish(AGENT_UNSCHEDULE_PUBSUB) calls; n_adv st u counts the
    advance calls to state st that list uid u, n_uns u the unschedule
    publications listing u, n_hand u = staged + FAILED + CANCELED advances.
@@ -16,7 +18,7 @@
    Proof method: every global step, seen from one uid, is invisible or a move
    of a finite local transition system (Exec.ProjProofs: induction over the
    schedule, any number of tasks, under the invariant Exec.Proj.wf); the
-   reachable set of that system (39k states) is computed and checked closed
+   reachable set of that system (67k states) is computed and checked closed
    and safe by the kernel (Exec.LocalProofs, vm_compute over a genuinely
    finite domain: Local.lstate with counters saturating at 2). *)
 From Coq Require Import ZArith List Bool.
@@ -88,7 +90,7 @@ Print Assumptions C07_local_system_safe.
    with the intake and with the exit of process 1; the run reaches quiescence, task 1 is staged as
    CANCELED once, task 2 is FAILED once, each released once *)
 Example C07_nonvacuous :
-  let sc := mkSc [[mkTd 1 FNone true; mkTd 2 FAfterSpawn false]] [[2; 1]] in
+  let sc := mkSc [[mkTd 1 FNone true false; mkTd 2 FAfterSpawn false false]] [[2; 1]] in
   let sched := [CI; CI; CI; CI; CC; CI; CI; CI; CT; CC; CC; CT; CT; CC; CX 1 3; CW; CW; CW; CT; CW; CC; CT; CW; CW; CC; CC;
                 CI; CI; CI; CI; CI; CI; CI; CI; CI; CT; CT; CT; CT; CT; CT; CX 2 0; CW; CW; CW] in
   let '(s, tr) := run (init sc) sched in
